@@ -1,9 +1,12 @@
 (* C02  Layered parameters deep-merge.  Statements only.
    Proved here: the kind table of Value::merge on the model (one merge step), the same table
    for the specification Spec/DeepMerge.v, and totality of the mapping merge (no panic).
-   The refinement "render of a reference-free stack = deep_merge of the stack" is stated in
-   Proofs/Refinement.v (see DESIGN section 5, C02) and exercised as oracle on every run. *)
-From RV Require Import Model.Mapping Model.Yaml Spec.DeepMerge Proofs.MappingFacts Proofs.MergeFacts Proofs.DeepMergeFacts.
+   The refinement "render of a reference-free stack = deep_merge of the stack" is proved in
+   Proofs/Refinement.v for every stack of clean layers without reference markers, at any
+   nesting depth, errors included (C02_render_refines_deep_merge below); the same specification
+   is the oracle of the correspondence run. *)
+From RV Require Import Model.Mapping Model.Yaml Model.Interp Model.Run Spec.DeepMerge Proofs.MappingFacts Proofs.MergeFacts
+     Proofs.DeepMergeFacts Proofs.YamlFacts Proofs.Refinement.
 
 Theorem C02_null_replaces_anything : forall ck self, value_merge ck self VNull = Ok VNull.
 Proof. exact merge_null_replaces. Qed.
@@ -73,3 +76,38 @@ Example C02_nonvacuous :
         YMap [(YStr "a", YNull); (YStr "l", YSeq [YNum (NInt 2)]); (YStr "c", YStr "conflict")];
         YMap [(YStr "a", YMap [(YStr "y", YBool true)]); (YStr "~c", YNum (NInt 3))] ] = SOk v.
 Proof. eexists. vm_compute. reflexivity. Qed.
+
+(** The refinement, in full: for every non-empty stack of layers in the domain (mappings with
+    clean keys, no tags, no reference markers in string values; any nesting, any number of
+    layers) and every specification fuel f, there is an interpreter fuel from which on the model
+    pipeline (Mapping::from per layer, Mapping::merge in order, render_with_self) yields
+      - the specification's value up to the constant/override flags, when it gives one;
+      - a constant-key error naming the same key, when it gives that;
+      - a merge type-conflict error, when it gives a conflict;
+    and the specification never panics on the domain. *)
+Theorem C02_render_refines_deep_merge :
+  forall f ys, ys <> [] -> Forall layer_ok ys ->
+  exists F0, forall F, F0 <= F ->
+    stack_rel (deep_merge (S f) ys) (m <- Run.merge_layers ys ;; render_with_self F (VMap m)).
+Proof. exact run_value_refines_deep_merge. Qed.
+Eval cbv in "ASSUMPTIONS-OF C02_render_refines_deep_merge"%string. Print Assumptions C02_render_refines_deep_merge.
+
+(** Part 1 on its own, for any clean YAML (references allowed): merging the layers is the
+    specification's key-by-key collection. *)
+Theorem C02_merge_refines_collection :
+  forall ys slots m, Forall clean_layer ys -> slots_ok conv slots m ->
+  match collect_layers ys slots, foldM (fun acc y => m <- try_mapping_of_yaml y ;; mapping_merge acc m) ys m with
+  | SOk slots', Ok m' => slots_ok conv slots' m'
+  | SErr (SConst k1), Err (EConst k2) => k1 = k2
+  | _, _ => False
+  end.
+Proof. exact stack_merge_refines_collection. Qed.
+Eval cbv in "ASSUMPTIONS-OF C02_merge_refines_collection"%string. Print Assumptions C02_merge_refines_collection.
+
+(** the hypotheses are satisfiable and the three outcomes all occur *)
+Example C02_refinement_nonvacuous :
+  Forall layer_ok [ex_l1; ex_l2; ex_l3; ex_l4] /\
+  (exists v, deep_merge 6 [ex_l1; ex_l2] = SOk v) /\
+  (deep_merge 6 [ex_l1; ex_l2; ex_l3] = SErr SConflict) /\
+  (deep_merge 6 [ex_l1; ex_l4] = SErr (SConst (VStr "c"))).
+Proof. split; [exact ex_domain | split; [eexists; exact (proj1 ex_value) | split; [exact (proj1 ex_conflict) | exact (proj1 ex_constant)]]]. Qed.
